@@ -106,6 +106,12 @@ def base_model(variant=0):
         "s",
         qss.Surrogate(model=s_model, args=["x"], outputs=["sa", "sb"], stoichiometries={"sa": {"x": -1.0, "y": 1.0}}),
     )
+    if variant == 0:
+        # values resolved once at t=0 from a reaction rate and a derived variable / from another assignment:
+        # whatever changes a rate law, a derived quantity or a parameter has to reach them
+        m.add_parameter("q2", InitialAssignment(fn=f_add, args=["v1", "dv"]))
+        m.add_variable("w", InitialAssignment(fn=f_mul, args=["q2", "p"]))
+        m.add_reaction("v5", f_mul, args=["w", "q2"], stoichiometry={"w": -1})
     return m
 
 
